@@ -12,6 +12,12 @@ props = sys.argv[sys.argv.index("--props") + 1].split(",") if "--props" in sys.a
 src = "/tmp/seed_%s" % pid if int(n) <= 2 else "/tmp/seedB_%s" % pid
 fn = n if int(n) <= 2 else str(int(n) - 2)
 patch, demo, notes = ["%s/%s%s%s" % (src, a, fn, b) for a, b in (("patch", ".diff"), ("demo", ".py"), ("notes", ".md"))]
+saved = "/verif/seeded/%s-%s" % (pid, n)
+if "--from-saved" in sys.argv or not os.path.exists(patch):
+    patch, demo, notes = saved + "/patch.diff", saved + "/demo.py", saved + "/notes.md"
+    if not os.path.exists(notes) and os.path.exists(saved + "/meta.json"):
+        open("/tmp/_notes_%s_%s.md" % (pid, n), "w").write(json.load(open(saved + "/meta.json")).get("needs", ""))
+        notes = "/tmp/_notes_%s_%s.md" % (pid, n)
 wt = "/tmp/evalwt_%s_%s" % (pid, n)
 def sh(cmd, **kw):
     return subprocess.run(cmd, shell=True, capture_output=True, text=True, **kw)
@@ -48,6 +54,10 @@ if ok and official:
     finally:
         sh("git -C /repo checkout -- .")
     meta["detected_by"] = [p for p, v in meta["checks"].items() if v["exit"] == 1]
+    meta["official_run"] = {"procedure": "git -C /repo apply patch.diff; ./check <P> --tier %s; git -C /repo checkout -- ." % tier,
+                            "repo_head": sh("git -C /repo rev-parse --short HEAD").stdout.strip(),
+                            "verif_head": sh("git -C /verif rev-parse --short HEAD").stdout.strip(),
+                            "detected_by": list(meta["detected_by"])}
 elif ok:
     # development mode: the same check, pointed at a scratch worktree that carries the change (VF_REPO)
     wt2 = wt + "_chk"
@@ -69,7 +79,8 @@ elif ok:
 dst = "/verif/seeded/%s-%s" % (pid, n)
 if ok:
     os.makedirs(dst, exist_ok=True)
-    shutil.copy(patch, dst + "/patch.diff"); shutil.copy(demo, dst + "/demo.py")
+    if os.path.abspath(patch) != dst + "/patch.diff":
+        shutil.copy(patch, dst + "/patch.diff"); shutil.copy(demo, dst + "/demo.py")
     meta["needs"] = open(notes).read() if os.path.exists(notes) else ""
     old = {}
     if os.path.exists(dst + "/meta.json"):
